@@ -164,13 +164,15 @@ def judge_c20(case):
         obs = rec.get("obs") or {}
         evs = rec.get("events") or []
         left = bool(evs) and evs[-1].get("raised") == f["exc"]
+        if f["fault"] == "eval" and f.get("after_exit"):
+            left = True  # raised by optyx's own post-solve evaluation of a callback: nothing can swallow it but optyx
         reach.judged += 1
         if not left:
             reach.probe("fault-swallowed-inside-scipy")
             continue
         reach.probe("fault-left-the-solver:" + f["exc"])
         outcome = obs.get("status") or ("exc:" + str(obs.get("exc")))
-        reach.nontrivial.add((f["fault"], f.get("kind"), f.get("where"), f["exc"], evs[-1].get("method"), outcome, bool(rec.get("reclimit")), len(evs)))
+        reach.nontrivial.add((f["fault"], f.get("kind"), f.get("where"), bool(f.get("after_exit")), f["exc"], evs[-1].get("method") if evs else None, outcome, bool(rec.get("reclimit")), len(evs)))
         ok = obs.get("status") == "failed" or obs.get("exc") == f["exc"]
         if not ok:
             findings.append(_finding("C20", "fault-outcome", rec, f"injected {f['exc']} at {f['fault']} left the solver, but solve gave {outcome}"))
